@@ -198,16 +198,20 @@ def cur():
     return Ctx.cur
 
 
-def explore(fn, max_paths=200000, max_depth=400, roots=None, deadline=None):
+def explore(fn, max_paths=200000, max_depth=400, roots=None, deadline=None, yield_at=None):
     """Run fn(ctx) once per feasible path.  Returns ([(trace, result)], Stats).
 
     PathAbort drops a path (counted).  HarnessError propagates.
     `roots`: list of decision prefixes to start from (for work splitting).
+    `yield_at`: wall-clock time after which the unexplored prefixes are handed
+    back instead of being explored: returns (results, Stats, leftover prefixes).
     """
     pending = [list(r) for r in (roots if roots is not None else [[]])]
     stats = Stats()
     results = []
     while pending:
+        if yield_at is not None and time.time() > yield_at and results:
+            return results, stats, pending
         prefix = pending.pop()
         ctx = Ctx(prefix, pending, stats, max_depth=max_depth)
         Ctx.cur = ctx
@@ -225,6 +229,8 @@ def explore(fn, max_paths=200000, max_depth=400, roots=None, deadline=None):
         if deadline is not None and time.time() > deadline:
             raise HarnessError('time budget exhausted with %d prefixes pending'
                                % len(pending))
+    if yield_at is not None:
+        return results, stats, []
     return results, stats
 
 
